@@ -16,7 +16,8 @@ RULE = ("planted-fault exploration through the command line: a catalogue of 53 e
         "without --lst), a sentinel file pre-created at every output path. Oracle: exit status != 0 <=> the fault set holds an error kind "
         "<=> an Error diagnostic was printed; on failure the directory snapshot is unchanged (nothing created, sentinels untouched); on "
         "success every selected output and listing exists; for one program the exit status, file set and file bytes are identical across "
-        "all -W selections and both formats. Separate family: unwritable output paths among several outputs. state = (program, fault "
+        "all -W selections and both formats. Separate families: unwritable output paths among several outputs; an unreadable input (missing, "
+        "a directory, not UTF-8) at every position among 1-3 inputs x 3 output options x 2 formats. state = (program, fault "
         "set, configuration); transition = one planted fault or one configuration step; non-trivial = distinct state")
 ASSUMPTIONS = ["message texts and the number of reports are not compared", "the in-process command-line driver is re-validated against fresh processes in C18"]
 
@@ -77,6 +78,7 @@ def cases(tier):
     for name in SWEEP:
         yield {"k": "sweep", "prog": name}
     yield {"k": "unwritable"}
+    yield {"k": "inputs"}
 
 
 BIG = "\t.blkb 177777\n\t.blkb 177777\n\tnop\n"
@@ -272,6 +274,42 @@ def check(case, r, tier):
                                     "%s: the run failed (exit %r) but wrote %s" % (name, out.exit, touched), {"k": "unwritable-one", "name": name, "fmt": fmt}, [], touched)
                 finally:
                     shutil.rmtree(out.root, ignore_errors=True)
+        return
+    if k == "inputs":
+        # an input file that cannot be read (missing, a directory, not UTF-8) at every position among 1-3 inputs: the run must fail
+        # and write nothing, whatever the other inputs are
+        good = ["a.mac", "b.mac", "c.mac"]
+        tree0 = {"a.mac": "start:\tmov #start, r0\n", "b.mac": "\t.word 1, 2\n", "c.mac": "\thalt\n", "dir.mac/keep": "", "bin.mac": b"\xff\xfe\x00nop\n"}
+        bads = [("missing", "nofile.mac"), ("directory", "dir.mac"), ("not-utf8", "bin.mac")]
+        for n in (1, 2, 3):
+            for pos in range(n):
+                for bname, bpath in bads:
+                    files = good[:n - 1]
+                    files.insert(pos, bpath)
+                    for oname, oargs, opaths in (("o-bin", ["-o", "x.bin"], ["x.bin"]), ("implicit", ["--implicit-bin"], []), ("o-bin-lst", ["-o", "x.bin", "--lst"], ["x.bin", "x.lst"])):
+                        for fmt in FORMATS:
+                            tree = dict(tree0)
+                            for pth in opaths:
+                                tree[pth] = "SENTINEL"
+                            out = driver.cli(files + oargs + ["--report-format", fmt], tree, keep=True)
+                            r.states += 1
+                            r.trans += 1
+                            try:
+                                touched = out.created() + out.modified()
+                                c = {"k": "inputs-one", "files": files, "oargs": oargs, "fmt": fmt, "sentinels": opaths}
+                                okk = out.exit not in (0, None) and not touched and not out.internal_error
+                                r.ran("fail-clean" if okk else "bad", key=("inputs", tuple(files), oname, fmt))
+                                if out.exit == 0:
+                                    r.violation("unreadable-input:%s:success" % bname, "input %s (%s) cannot be read but the exit status is 0 (inputs %s)" % (bpath, bname, files), c, "exit != 0", out.stderr[-300:])
+                                elif out.internal_error:
+                                    r.violation("unreadable-input:%s:internal-error" % bname, "internal compiler error", c, None, out.stderr[-300:])
+                                elif touched:
+                                    r.violation("unreadable-input:%s:files-touched-on-failure" % bname, "the run failed but wrote %s" % touched, c, [], touched)
+                            finally:
+                                shutil.rmtree(out.root, ignore_errors=True)
+        return
+    if k == "inputs-one":
+        check({"k": "inputs"}, r, tier)
         return
     if k == "unwritable-one":
         check({"k": "unwritable"}, r, tier)
